@@ -22,9 +22,9 @@ SPEC = dict(
           "forms (own app with/without arguments, the same with blanks or tabs after = and trailing blanks, other commands, prefixes of the app command, instance-key forms, control "
           "bytes), Icon= forms (${SNAP} paths with .. / . / empty segments, absolute paths, snap.<name>. theme names of this "
           "and other snaps), ${SNAP} occurrences, random bytes incl. NUL and invalid UTF-8, long lines; LF, CRLF, blank and "
-          "missing final line ends; 7 snaps (with and without instance key, app named like the snap, no apps) x 36 desktop "
+          "missing final line ends; 7 snaps (with and without instance key, app named like the snap, no apps) x 48 desktop "
           "file names (ordinary, no extension, dots, spaces, tab, line break, quotes, backslash, %, $, backquote, ${SNAP}, "
-          "control characters incl. U+0085, invalid UTF-8); each file is written into meta/gui under a scratch root and the "
+          "control characters inside, last, FIRST and alone incl. newline, CR, tab, U+007F, U+0085, invalid UTF-8); each file is written into meta/gui under a scratch root and the "
           "real deriveDesktopFilesContent (name filter + sanitizeDesktopFile) is run. Non-trivial = non-empty output."),
     exhaustive=dict(quick=False, thorough=False),
     trusted_base=[
